@@ -568,6 +568,7 @@ class G:
             self.emit("max %s" % x)
             self.emit("toarr %s" % x)
             self.emit("chkeq %s" % x)
+            self.emit("l2cksum %s" % x)
             for _ in range(nq):
                 q = r.choice(["has", "rank", "sel", "cir", "iwi"])
                 if q in ("has", "rank"):
@@ -583,6 +584,7 @@ class G:
             self.emit("eq %s %s" % (x, y))
             self.emit("opt %s" % y)
             self.emit("eq %s %s" % (x, y))
+            self.emit("l2cksum %s" % y)
             self.emit("add %s %d" % (y, self.val_near(keys)))
             self.emit("eq %s %s" % (x, y))
         # range queries whose START lies in an unpopulated chunk and whose END chunk is the first populated one / has populated
@@ -604,7 +606,15 @@ class G:
                 self.emit("cir %s %d %d" % (x, s0, e0))
                 self.emit("iwi %s %d %d" % (x, s0, e0))
             self.count("query:fixed-range-start-in-gap")
+        # checksum on fixed shapes: every kind, a full chunk in run and in bitmap form, top key, values with high bytes set
+        for spec in ("cow=0;0:A:1,5,9;3:R:10+99;7:A:65535", "cow=1;65535:R:0+65535", "cow=0;2:B:65536:ffffffffffffffff*1024",
+                     "cow=0;258:A:256,257,65280;513:R:256+255,65024+511", "cow=0;1:B:32768:aaaaaaaaaaaaaaaa*1024;2:B:32768:5555555555555555*1024"):
+            x = self.fresh("ck")
+            self.emit("mkrepr %s %s" % (x, spec))
+            self.emit("l2cksum %s" % x)
+            self.emit("dig %s" % x)
         self.emit("new e0")
+        self.emit("l2cksum e0")
         for q in ("card e0", "empty e0", "min e0", "max e0", "sel e0 0", "rank e0 5", "cir e0 0 4294967296", "iwi e0 0 4294967296", "toarr e0"):
             self.emit(q)
 
